@@ -542,7 +542,9 @@ DefectClasses == {"unknown_module", "bad_weight", "bad_area", "soft_no_area", "h
 (***************************************************************************)
 Thorough == UNIVERSE = "thorough"
 \* listing order is deliberately NOT the sorted order of the names (a writer that sorts its mapping keys must show)
-ModNames == <<"b_2", "A", "_c", "D4">>
+\* The deep universe uses legal identifiers that a YAML 1.1 reader takes for booleans when they are written plain
+\* (y, N, on, No; regions yes, OFF): they must load (given quoted or in a tree) and survive the round trip.
+ModNames == IF lvl = "deep" THEN <<"y", "N", "on", "No">> ELSE <<"b_2", "A", "_c", "D4">>
 C2(x, yy) == <<x, 1, yy, 1>>                          \* a centre on the lattice
 
 \* rectangle pool (w, h >= 2 for the trunks so that the shifted overlap exists)
@@ -591,10 +593,10 @@ WideDocs == SoftDocs \cup HardDocs \cup FlipDocs \cup FixedDocs \cup TermDocs
 
 \* centre carriers in general position ((0,0)-(3,4) is a 3-4-5 triangle; the others are irrational distances)
 DeepDocs == { [Soft(1, 1, 1, 1) EXCEPT !.center = C2(0, 0)],
-              [Soft(2, 1, 1, 1) EXCEPT !.center = C2(3, 4)],
+              [Soft(2, 1, 1, 1) EXCEPT !.center = C2(3, 4), !.area = [form |-> "d", ent |-> << <<Ground, 4>>, <<"yes", 3>> >>]],
               Hardish(FTerm, C2(7, 1), NoRects),
               Hardish(FFixed, <<>>, List(<<R4>>)),                                  \* centre (7.5, 4.5) from its rectangle
-              [Soft(1, 1, 1, 1) EXCEPT !.rects = List(<<R1, InRegion(R3, "dsp")>>)] } \* centroid with denominator 7
+              [Soft(1, 1, 1, 1) EXCEPT !.rects = List(<<R1, InRegion(R3, "OFF")>>)] } \* centroid with denominator 7
 
 \* wide: 2 modules, at most one net.  deep: nets once 3 modules are there; quick stops at 3 modules and one net,
 \* thorough goes on to 4 modules (one net) or stays at 3 modules with two nets
